@@ -219,6 +219,10 @@ JLookup(r) ==
       intact == r.op # "describe" \/ r.found = << >> \/ (Len(r.extra) > 0 /\ \A k \in 1..Len(r.extra) : r.extra[k] = (r.found[1] % 256))
   IN (IF r.err = 0 /\ (IF r.op = "describe" THEN descOk ELSE discOk) THEN {} ELSE {IF r.op = "describe" THEN "C20.FirstMatch" ELSE "C20.AllMatches"})
      \cup (IF intact THEN {} ELSE {"C20.ResponseIntact"})
+     \* table runs: the script and the set of results Lookup.tla allows for it were enumerated by TLC (MC_LookupGen);
+     \* the call must have returned one of them (strict when no scripted send was late and the call itself was on time)
+     \cup (IF r.table = 1 /\ r.late <= r.tol /\ r.elapsed <= r.timeout + r.tol /\ ~(\E i \in 1..Len(r.allowed) : r.allowed[i] = r.found)
+          THEN {IF r.op = "describe" THEN "C20.FirstMatch" ELSE "C20.AllMatches"} ELSE {})
      \cup (IF r.elapsed <= r.timeout + r.slack + setup /\ (r.op = "describe" \/ r.elapsed >= r.timeout) THEN {} ELSE {"C20.ReturnBound"})
      \cup (IF r.reqs = 1 THEN {} ELSE {"C20.OneRequest"})
      \cup (IF r.hpaiok = 1 THEN {} ELSE {"C20.DescribeHpai"})
